@@ -28,6 +28,9 @@ def o_c05(cimp, ctx):
         return probs
     tasks = op["tasks"]
     starts = EO._started(cimp)
+    produced = {p for t in tasks for p in t["prods"]}
+    if any(d not in produced and d not in cimp["files"] for t in tasks for d in t["deps"]):
+        return probs      # a source file is missing: no build of this project can succeed, killed or not
     if cimp["exit"] != 0:
         probs.append((f"the {role} build after a kill ended with exit code {cimp['exit']}", ()))
         return probs
